@@ -28,6 +28,11 @@ func (e *Exec) intrinsicFor(fn *ssa.Function) intrinsic {
 	if h, ok := intrinsics[name]; ok {
 		return h
 	}
+	if e.h != nil && e.h.Spec.MonoTime {
+		if h, ok := monoTimeIntrinsics[name]; ok {
+			return h
+		}
+	}
 	if strings.HasPrefix(name, "unique.Make[") {
 		return inUniqueMake
 	}
@@ -1339,4 +1344,37 @@ func inParam(e *Exec, s *State, f *Frame, fn *ssa.Function, args []Value, result
 		panic(unsupported("harness parameter " + name + " not set in the registry"))
 	}
 	return e.ret(f, result, BV(64, uint64(int64(v))))
+}
+
+// Monotonic time model (HarnessSpec.MonoTime): time.Time values that carry a
+// monotonic reading are compared and subtracted by that reading (documented
+// behaviour of package time); Add moves it. The wall-clock part of the value
+// is left alone (it cannot influence Sub/After/Before/Equal between two
+// monotonic readings). Overflow / saturation of Duration is outside the model.
+var monoTimeIntrinsics = map[string]intrinsic{
+	"(time.Time).Add": func(e *Exec, s *State, f *Frame, fn *ssa.Function, args []Value, result ssa.Value) (stepResult, bool) {
+		t := args[0].(StructV)
+		d := args[1].(*Term)
+		e.h.noteAssumption("monotonic time model: Time.Add/Sub/After/Before/Equal on readings with a monotonic clock are int64 nanosecond arithmetic on that clock")
+		return e.ret(f, result, StructV{t[0], BinBV(OpAdd, t[1].(*Term), d), t[2]})
+	},
+	"(time.Time).Sub": func(e *Exec, s *State, f *Frame, fn *ssa.Function, args []Value, result ssa.Value) (stepResult, bool) {
+		t, u := args[0].(StructV), args[1].(StructV)
+		return e.ret(f, result, BinBV(OpSub, t[1].(*Term), u[1].(*Term)))
+	},
+	"(time.Time).After": func(e *Exec, s *State, f *Frame, fn *ssa.Function, args []Value, result ssa.Value) (stepResult, bool) {
+		t, u := args[0].(StructV), args[1].(StructV)
+		return e.ret(f, result, Cmp(OpSlt, u[1].(*Term), t[1].(*Term)))
+	},
+	"(time.Time).Before": func(e *Exec, s *State, f *Frame, fn *ssa.Function, args []Value, result ssa.Value) (stepResult, bool) {
+		t, u := args[0].(StructV), args[1].(StructV)
+		return e.ret(f, result, Cmp(OpSlt, t[1].(*Term), u[1].(*Term)))
+	},
+	"(time.Time).Equal": func(e *Exec, s *State, f *Frame, fn *ssa.Function, args []Value, result ssa.Value) (stepResult, bool) {
+		t, u := args[0].(StructV), args[1].(StructV)
+		return e.ret(f, result, Eq(t[1].(*Term), u[1].(*Term)))
+	},
+	"time.Since": func(e *Exec, s *State, f *Frame, fn *ssa.Function, args []Value, result ssa.Value) (stepResult, bool) {
+		return stepResult{}, false
+	},
 }
